@@ -384,7 +384,8 @@ pub fn v2_cases() -> Vec<Vec<u8>> {
 }
 
 pub fn run(run: &Run) {
-    let thorough = run.tier == Tier::Thorough;
+    let thorough = true; // the full alternative menus take a few seconds: both tiers explore them
+    let _ = run.tier;
     run.explore(&ListUniverse { name: "U12-v1".into(), what: "well-formed v1 lines x one invalid element".into(), cases: v1_cases(thorough) });
     run.explore(&ListUniverse { name: "U12-v2".into(), what: "well-formed v2 headers x one invalid element".into(), cases: v2_cases() });
 }
